@@ -1501,6 +1501,15 @@ where
         ));
     }
 
+    // Every evaluation-domain generator comes from `F::two_adic_generator`, which panics beyond
+    // the field's two-adicity: a schedule (or blow-up parameter) taller than that is malformed.
+    if log_max_height > F::TWO_ADICITY {
+        return Err(VerificationError::InvalidProofShape(format!(
+            "log_max_height {log_max_height} exceeds the field's two-adicity {}",
+            F::TWO_ADICITY
+        )));
+    }
+
     if betas.is_empty() {
         return Err(VerificationError::InvalidProofShape(
             "FRI must have at least one fold phase".to_string(),
